@@ -114,6 +114,7 @@ def run(rep, idx, tier):
     rep.require("C04.4", 1)
     rep.require("C04.5", 2)
     rep.require("C04.7", 3)
+    rep.require("C04.8", 3)
     c = get_ctx(idx, "csr:Multiplexer.elaborate")
     rep.analysed(c.fi.site)
     rep.count("drivers", len(c.t.drivers))
@@ -167,3 +168,5 @@ def run(rep, idx, tier):
     shadow_population(rep, "C04.5", c, r.SH, "readable")
     # C04.7 the address hash that shares chunks between registers is its own inverse on the low bits
     glue.shadow_hash(rep, idx, "C04.7")
+    # C04.8 a chunk is one bus word wide
+    glue.chunk_width(rep, "C04.8", idx, c, r.SH)
